@@ -234,6 +234,7 @@ def run(prop, tier, replay):
                         distinct.add((ev["scn"] % 3, tkey, json.dumps([ev["step"]["q"], r["variant"]], sort_keys=True)))
         if len(samples) < 3:
             qs = [json.loads(x) for x in lines if '"op":"query"' in x]
+            qs = [e for e in qs if any(len(r["rows"]) >= 2 for r in e["extra"]["results"])]
             if qs:
                 e = qs[len(qs) // 2]
                 samples.append({"scenario": e["scn"], "step": e["step"], "table_rows": e["tbl"].get("rows"),
